@@ -4,6 +4,7 @@ import (
 	"context"
 	"encoding/hex"
 	"fmt"
+	"math"
 	"net"
 	"net/http"
 	"os"
@@ -145,6 +146,10 @@ func (s *spyServer) SubscribeSignedVAA(req *spyv1.SubscribeSignedVAARequest, res
 				addr, err := decodeEmitterAddr(t.EmitterFilter.EmitterAddress)
 				if err != nil {
 					return status.Error(codes.InvalidArgument, fmt.Sprintf("failed to decode emitter address: %v", err))
+				}
+				// a chain number that is not a 16-bit chain id matches no VAA; converting it would wrap it onto another chain
+				if n := t.EmitterFilter.ChainId.Number(); n < 0 || n > math.MaxUint16 {
+					return status.Error(codes.InvalidArgument, fmt.Sprintf("chain id out of range: %d", n))
 				}
 				fi = append(fi, filter{
 					chainId:     vaa.ChainID(t.EmitterFilter.ChainId),
